@@ -318,6 +318,11 @@ class AsyncServer(Entity):
                     # Return generator for I/O processing
                     def io_wrapper():
                         io_start = self.now.to_seconds()
+                        # The CPU is free now: start the next queued request at this
+                        # instant.  Returned after the I/O wait, the event would be dated
+                        # before the clock and discarded, stranding the CPU queue.
+                        if result_events:
+                            yield 0.0, list(result_events)
                         result = yield from io_result
                         io_time = self.now.to_seconds() - io_start
                         self._io_times.append(io_time)
@@ -326,13 +331,13 @@ class AsyncServer(Entity):
                         # Complete the request
                         self._complete_request(original_event)
 
-                        # Return any events from I/O handler plus queue processing
+                        # Return any events from the I/O handler
                         if result is None:
-                            return result_events if result_events else None
+                            return None
                         elif isinstance(result, list):
-                            return result + result_events
+                            return result
                         else:
-                            return [result, *result_events]
+                            return [result]
 
                     return io_wrapper()
 
